@@ -13,7 +13,7 @@ out=/verif/seeded/$id
 rm -rf $sw $out; mkdir -p $out
 git -C /repo worktree add --detach $sw HEAD -q || exit 2
 cp -r $demo $sw-demo
-sed -i "s#=> /tmp/mut/[A-Z0-9]*/wt#=> $sw#" $sw-demo/go.mod
+sed -i "s#=> /tmp/mut[0-9]*/[A-Z0-9]*/wt#=> $sw#" $sw-demo/go.mod
 cp /repo/go.sum $sw-demo/go.sum 2>/dev/null
 tags=""; grep -q "tags verif" $(dirname $patch)/RUN.md 2>/dev/null && tags="-tags verif"
 rundemo() {
